@@ -89,6 +89,7 @@ fn dates_for(args: &Args, r: &mut Rng) -> Vec<NaiveDate> {
 // ------------------------------------------------------------------------------------------
 pub fn gen_c01(args: &Args) {
     let seed = args.num("seed", 1) as u64;
+    session_start(seed);
     let mut r = Rng::new(seed ^ 0xC01);
     let mut w = TraceWriter::create(&args.str("out", "c01.ndjson"));
     let dates = dates_for(args, &mut r);
@@ -113,8 +114,9 @@ pub fn gen_c01(args: &Args) {
         let o = call(&site, date, &p);
         w.emit(ev("c01", &site, date, &p, &o));
     }
+    let session = session_flush(&mut w);
     let k = w.finish();
-    println!("{}", json!({"events": k}));
+    println!("{}", json!({"session": session, "events": k}));
 }
 
 fn site60(r: &mut Rng, zone_h: i64) -> Site {
@@ -123,6 +125,7 @@ fn site60(r: &mut Rng, zone_h: i64) -> Site {
 
 pub fn gen_c02(args: &Args) {
     let seed = args.num("seed", 1) as u64;
+    session_start(seed);
     let mut r = Rng::new(seed ^ 0xC02);
     let mut w = TraceWriter::create(&args.str("out", "c02.ndjson"));
     let dates = dates_for(args, &mut r);
@@ -167,8 +170,9 @@ pub fn gen_c02(args: &Args) {
         let o = call(&site, date, &p);
         w.emit(ev("c02", &site, date, &p, &o));
     }
+    let session = session_flush(&mut w);
     let k = w.finish();
-    println!("{}", json!({"events": k, "weather_pairs": n_pairs}));
+    println!("{}", json!({"session": session, "events": k, "weather_pairs": n_pairs}));
 }
 
 fn pick<'a, T>(r: &mut Rng, xs: &'a [T]) -> &'a T {
@@ -188,6 +192,7 @@ fn angle_params(r: &mut Rng) -> P {
 
 pub fn gen_c03(args: &Args) {
     let seed = args.num("seed", 1) as u64;
+    session_start(seed);
     let mut r = Rng::new(seed ^ 0xC03);
     let mut w = TraceWriter::create(&args.str("out", "c03.ndjson"));
     let dates = dates_for(args, &mut r);
@@ -213,12 +218,31 @@ pub fn gen_c03(args: &Args) {
             }
         }
     }
+    // boundary probes: just inside the latitude where the twilight stops existing
+    let want = args.num("boundaries", 6);
+    let (mut found, mut i) = (0, 0);
+    while found < want && i < want * 20 {
+        i += 1;
+        let p = angle_params(&mut r);
+        let date = crate::pd::probe_date(&mut r);
+        let sites: Vec<Site> = crate::pd::boundary_probes(&mut r, date, &p, if i % 2 == 0 { 1 } else { 6 }, 30, 2)
+            .into_iter().filter(|s| s.lat.abs() <= 600_000).collect();
+        if !sites.is_empty() {
+            found += 1;
+        }
+        for site in sites {
+            let o = call(&site, date, &p);
+            w.emit(ev("c03", &site, date, &p, &o));
+        }
+    }
+    let session = session_flush(&mut w);
     let k = w.finish();
-    println!("{}", json!({"events": k}));
+    println!("{}", json!({"session": session, "events": k}));
 }
 
 pub fn gen_c04(args: &Args) {
     let seed = args.num("seed", 1) as u64;
+    session_start(seed);
     let mut r = Rng::new(seed ^ 0xC04);
     let mut w = TraceWriter::create(&args.str("out", "c04.ndjson"));
     let dates = dates_for(args, &mut r);
@@ -254,12 +278,14 @@ pub fn gen_c04(args: &Args) {
             }
         }
     }
+    let session = session_flush(&mut w);
     let k = w.finish();
-    println!("{}", json!({"events": k, "zenith_stratum": zenith}));
+    println!("{}", json!({"session": session, "events": k, "zenith_stratum": zenith}));
 }
 
 pub fn gen_c06(args: &Args) {
     let seed = args.num("seed", 1) as u64;
+    session_start(seed);
     let mut r = Rng::new(seed ^ 0xC06);
     let mut w = TraceWriter::create(&args.str("out", "c06.ndjson"));
     let n = args.num("n", 6000);
@@ -300,8 +326,25 @@ pub fn gen_c06(args: &Args) {
         }
         w.emit(ev("c06", &site, date, &p, &o));
     }
+    // boundary probes: 0.02 degree steps to +-0.6 degree around the latitude where the library's validity flips,
+    // for Fajr, Isha, Shurooq; dates incl. January / February of the non-leap century years
+    let mut probes = 0;
+    for i in 0..args.num("boundaries", 24) {
+        let p = angle_params(&mut r);
+        let date = crate::pd::probe_date(&mut r);
+        let which = [1usize, 6, 2][(i % 3) as usize];
+        for site in crate::pd::boundary_probes(&mut r, date, &p, which, 4, 30) {
+            if site.lat.abs() > 895_000 {
+                continue;
+            }
+            let o = call(&site, date, &p);
+            probes += 1;
+            w.emit(ev("c06", &site, date, &p, &o));
+        }
+    }
+    let session = session_flush(&mut w);
     let k = w.finish();
-    println!("{}", json!({"events": k, "with_invalid": invalid}));
+    println!("{}", json!({"session": session, "events": k, "with_invalid": invalid, "boundary_probes": probes}));
 }
 
 // ------------------------------------------------------------------------------------------
@@ -309,6 +352,7 @@ pub fn gen_c06(args: &Args) {
 
 pub fn gen_c13(args: &Args) {
     let seed = args.num("seed", 1) as u64;
+    session_start(seed);
     let thorough = args.str("tier", "quick") == "thorough";
     let mut r = Rng::new(seed ^ 0xC13);
     let mut w = TraceWriter::create(&args.str("out", "c13.ndjson"));
@@ -372,8 +416,9 @@ pub fn gen_c13(args: &Args) {
         emit_history(&mut w, &mut r, site, &p, d, 3);
         histories += 1;
     }
+    let session = session_flush(&mut w);
     let k = w.finish();
-    println!("{}", json!({"events": k, "histories": histories}));
+    println!("{}", json!({"session": session, "events": k, "histories": histories}));
 }
 
 // ------------------------------------------------------------------------------------------
@@ -381,6 +426,7 @@ pub fn gen_c13(args: &Args) {
 
 pub fn gen_c20(args: &Args) {
     let seed = args.num("seed", 1) as u64;
+    session_start(seed);
     let mut r = Rng::new(seed ^ 0xC20);
     let mut w = TraceWriter::create(&args.str("out", "c20.ndjson"));
     let dates = dates_for(args, &mut r);
@@ -420,6 +466,7 @@ pub fn gen_c20(args: &Args) {
             }
         }
     }
+    let session = session_flush(&mut w);
     let k = w.finish();
-    println!("{}", json!({"events": k}));
+    println!("{}", json!({"session": session, "events": k}));
 }
